@@ -451,10 +451,10 @@ _ADDENDA4 = {
     "C15": "Fourth round: a JWT fang with a custom token source (documented as an apiKey scheme), used through a clone, at root / child / local; requests built from the document answer apiKey schemes.",
     "C06": "Fourth round: eight pipelined bursts (3-16 requests, 1.2-2.9 KiB, heads of 150/300/470/1000 bytes, one mixed with bodies): every 1-cut, 2-cuts on a grid.",
     "C09": "Fourth round: histories of two on one thread - after each of three serializations refused half-way the value must be written as before, after each of four refused texts the text must be read as before.",
-    "C12": "Fourth round: compositions (Context fang of the payload type before the JWT fang, outer JWT reading another header + inner JWT, sibling mounts with different secrets incl. one a prefix of the other, the same fang on parent and child) x a token menu with cross-forged tokens x all histories of length <=2 (quick) / <=3 (thorough); witnesses carry the last rightly admitted request.",
+    "C12": "Fourth round: compositions (Context fang of the payload type before the JWT fang, outer JWT reading another header + inner JWT, sibling mounts with different secrets incl. one a prefix of the other, the same fang on parent and child) x a token menu with cross-forged tokens x all histories of length <=2 (quick) / <=3 (thorough); witnesses carry the last rightly admitted request. Fifth round: a secret with surrounding white space.",
     "C13": "Fourth round: compositions (sibling mounts with different pair lists, single next to array entry point, parent and child, two instances sharing a user name) x every exact / mixed / unpadded / wrong credential x all histories of length <=2 (quick) / <=3 (thorough).",
     "C17": "Fourth round: fifth entry point `replaced` (a response whose stream is replaced by another stream before it is sent).",
-    "C18": "Fourth round: every poll of howl gets a waker of its own generation and only a wake on the latest one counts (the contract of Future::poll); loom scenarios with session threads that unwind (guard dropped without done()).",
+    "C18": "Fourth round: every poll of howl gets a waker of its own generation and only a wake on the latest one counts (the contract of Future::poll); loom scenarios with session threads that unwind (guard dropped without done()). Fifth round: (b') a connection that waits in the accept queue while the interrupt is handled, so that one poll accepts it, spawns its session and sees the flag (two session kinds): howl must not return before that session has finished.",
 }
 for _k, _t in _ADDENDA4.items():
     PROPS[_k]["level_text"] += " " + _t
